@@ -129,7 +129,7 @@ def warm_kani():
                     if "turmoil-io-uring" in members:
                         members.add("turmoil-fs")
                 vcheck.make_overlay(ov, sorted(members), tokio_model=(g == "core" and vcheck.tokio_model_needed("turmoil")),
-                                    path_model=(g == "fsm"))
+                                    path_model=(g == "fsm" or (g == "leaf" and "turmoil-io-uring" in members)))
             tgt = vcheck.CACHE / ("target-%s-%s" % (crate, __import__("re").sub(r"[^a-z0-9]", "_", feats) or "default"))
             if tgt.exists():
                 shutil.rmtree(tgt)
